@@ -371,14 +371,18 @@ class FragExpiryProbe(Monitor):
         def filled(v):
             return frozenset(i for i, f in enumerate(v.fragments, 1) if f is not None)
 
-        def _recvAppFragment(conn, msgseq, fragment):
+        mon.done = {}           # conn name -> fragment ids this probe saw completing (its own record, not the repository's)
+
+        def pre(conn, fragment):
             cn = world.conn_name(conn)
             before = {k: (filled(v), v.frag_count) for k, v in conn.received_fragments.items()}
             fid = idx = cnt = None
             if len(fragment) >= 6:
                 fid, idx, cnt = struct.unpack(">HHH", fragment[:6])
-            now = world.k.now
-            r = orig(conn, msgseq, fragment)
+            return cn, before, fid, idx, cnt, world.k.now
+
+        def post(conn, state):
+            cn, before, fid, idx, cnt, now = state
             after = conn.received_fragments
             if fid is not None:
                 f0, c0 = before.get(fid, (frozenset(), cnt))
@@ -386,11 +390,13 @@ class FragExpiryProbe(Monitor):
                 if fid in after:
                     if len(filled(after[fid])) > len(f0):
                         mon.progress[(cn, fid)] = now
-                elif fid not in before and fid in getattr(conn, "completed_fragments", ()):
+                elif fid not in before and fid in mon.done.get(cn, ()):
                     pass        # a late copy of a fragment of an already delivered message: ignored, no context existed
                 else:
                     complete = len(f1) >= (c0 or 0)
-                    if not complete:
+                    if complete:
+                        mon.done.setdefault(cn, set()).add(fid)
+                    else:
                         # context gone although fragments are still missing: purged right after this fragment
                         last = mon.progress.get((cn, fid))
                         idle = now - last if last is not None else (0.0 if fid not in before else 1e9)
@@ -402,6 +408,14 @@ class FragExpiryProbe(Monitor):
                 if k != fid and k not in after:
                     last = mon.progress.pop((cn, k), None)
                     mon._purge(world, cn, k, len(f), c, now - last if last is not None else 1e9, "other")
+
+        def _recvAppFragment(conn, msgseq, fragment):
+            # (probe code runs inside the repository's call chain: its own failures must surface as harness errors,
+            # never as an exception the repository swallows - which would lose the rest of the datagram)
+            state = world._guard(pre, conn, fragment)
+            r = orig(conn, msgseq, fragment)
+            if state is not None:
+                world._guard(post, conn, state)
             return r
         world.seams._set(CB, "_recvAppFragment", _recvAppFragment)
 
